@@ -178,6 +178,22 @@ _op('rdivc', lambda c, a, p: [p['c'] / a[0]],
 _op('reciprocal', lambda c, a, p: [1 / a[0]], lambda t, a, p: _ref_div(t, [I(1), a[0]], p))
 
 
+def _ref_modc(t, a, p):
+    """a % c for a public modulus c > 0 that is a multiple of 2^-f: exact on the fixed-point grid.  Undecided when the
+    interval of a straddles a multiple of c."""
+    lo, hi = a[0]
+    c = Fr(p['c'])
+    if c <= 0 or (c * (1 << t['f'])).denominator != 1:
+        raise ValueError
+    q = math.floor(lo / c)
+    if math.floor(hi / c) != q:
+        raise Undecided
+    return [(lo - q * c, hi - q * c)]
+
+
+_op('modc', lambda c, a, p: [a[0] % p['c']], _ref_modc)
+
+
 def _ref_pow(t, a, p):
     n = p['n']
     x = a[0]
@@ -462,6 +478,37 @@ class Gen:
         v = Fr(raw, 1 << f)
         return [v.numerator, v.denominator]
 
+    def rand_modulus(self):
+        """Public modulus for %: whole (int or float) or with a fractional part, within the type's range."""
+        top = 1 << max(1, self.td['l'] - self.td['f'] - 3)
+        cands = [c for c in (2, 3, 5, 7, 10, 4, 2.0, 8.0, 2.5, 1.5, 0.75, 0.5, 1.25, 3.25, 6.5) if c < top]
+        return self.rng.choice(cands)
+
+    def mod_scenario(self):
+        """Remainder of a whole number by a public modulus (whole or not), then used in products: the remainder's
+        integrality mark must be right whatever the modulus."""
+        rng = self.rng
+        if not self.try_op(rng.choice(('const', 'input')), [],
+                           {'value': self.rand_val(integral=True), 'sender': 0, 'dummy': self.rand_val(integral=True)}, ['S']):
+            return
+        a = self.S[-1]
+        if not self.try_op('modc', [a], {'c': self.rand_modulus()}, ['S']):
+            return
+        r = self.S[-1]
+        if not self.try_op(rng.choice(('const', 'input')), [],
+                           {'value': self.rand_val(integral=False), 'sender': 0, 'dummy': self.rand_val(integral=False)}, ['S']):
+            return
+        b = self.S[-1]
+        k = rng.random()
+        if k < 0.4:
+            self.try_op('mul', [r, b] if rng.random() < 0.5 else [b, r], {}, ['S'])
+        elif k < 0.7:
+            if self.try_op('mklist', [r, a], {}, ['L']) and self.try_op('sum', [self.L[-1]], {}, ['S']):
+                self.try_op('mul', [self.S[-1], b], {}, ['S'])
+        else:
+            if self.try_op('mklist', [r, b], {}, ['L']):
+                self.try_op('prod', [self.L[-1]], {}, ['S'])
+
     def try_op(self, opn, args, p, kinds):
         try:
             vals = OPS[opn].ref(self.t, [self.val[a] for a in args], p)
@@ -520,8 +567,10 @@ class Gen:
             k = rng.choice(kinds)
             ok = False
             if k == 'lin':
-                opn = rng.choice(('add', 'sub', 'neg', 'addc', 'rsubc'))
-                if opn in ('add', 'sub'):
+                opn = rng.choice(('add', 'sub', 'neg', 'addc', 'rsubc', 'modc'))
+                if opn == 'modc':
+                    ok = self.try_op(opn, [rng.choice(S)], {'c': self.rand_modulus()}, ['S'])
+                elif opn in ('add', 'sub'):
                     ok = self.try_op(opn, [rng.choice(S), rng.choice(S)], {}, ['S'])
                 elif opn == 'neg':
                     ok = self.try_op(opn, [rng.choice(S)], {}, ['S'])
@@ -719,6 +768,8 @@ class Gen:
             self.mixed_list_scenario()
         if rng.random() < 0.1:
             self.selection_scenario()
+        if rng.random() < 0.1:
+            self.mod_scenario()
         for _ in range(self.size):
             if self.effects and rng.random() < 0.25:
                 every = self.S + self.L
